@@ -44,10 +44,6 @@ def put (t : Tx) : List Tx → List Tx
 def forward (th : Nat) (l : List Tx) : List Tx × List Tx :=
   (l.filter (fun t => decide (t.nonce < th)), l.filter (fun t => !decide (t.nonce < th)))
 
-/-- txSortedMap.Filter: (removed, kept) -/
-def filterOut (p : Tx → Bool) (l : List Tx) : List Tx × List Tx :=
-  (l.filter p, l.filter (fun t => !p t))
-
 /-- txSortedMap.Cap: (drops, kept) — the highest nonces beyond the threshold are dropped -/
 def capL (k : Nat) (l : List Tx) : List Tx × List Tx := (l.drop k, l.take k)
 
@@ -107,13 +103,14 @@ def unpayable (costLimit gasLimit : Nat) (t : Tx) : Bool :=
 def TxL.filter (l : TxL) (costLimit gasLimit : Nat) : List Tx × List Tx × TxL :=
   if l.costcap ≤ costLimit ∧ l.gascap ≤ gasLimit then ([], [], l)
   else
-    let r := filterOut (unpayable costLimit gasLimit) l.items
-    if l.strict && !r.1.isEmpty then
-      let low := lowest r.1
-      let i := filterOut (fun t => decide (low < t.nonce)) r.2
-      (r.1, i.1, { l with items := i.2, costcap := costLimit, gascap := gasLimit })
+    let removed := l.items.filter (unpayable costLimit gasLimit)
+    let kept := l.items.filter (fun t => !unpayable costLimit gasLimit t)
+    if l.strict && !removed.isEmpty then
+      let low := lowest removed
+      (removed, kept.filter (fun t => decide (low < t.nonce)),
+        { l with items := kept.filter (fun t => !decide (low < t.nonce)), costcap := costLimit, gascap := gasLimit })
     else
-      (r.1, [], { l with items := r.2, costcap := costLimit, gascap := gasLimit })
+      (removed, [], { l with items := kept, costcap := costLimit, gascap := gasLimit })
 
 /-- txList.Remove (by nonce!): (found, invalids, list) -/
 def TxL.remove (l : TxL) (t : Tx) : Bool × List Tx × TxL :=
@@ -122,8 +119,7 @@ def TxL.remove (l : TxL) (t : Tx) : Bool × List Tx × TxL :=
   | some _ =>
     let rest := l.items.filter (fun u => !decide (u.nonce = t.nonce))
     if l.strict then
-      let i := filterOut (fun u => decide (t.nonce < u.nonce)) rest
-      (true, i.1, { l with items := i.2 })
+      (true, rest.filter (fun u => decide (t.nonce < u.nonce)), { l with items := rest.filter (fun u => !decide (t.nonce < u.nonce)) })
     else (true, [], { l with items := rest })
 
 /-! ## pool state -/
@@ -171,6 +167,9 @@ def Pool.setN (s : Pool) (a : Addr) (n : Nat) : Pool := { s with pnonce := upd s
 
 def insertAll (t : Tx) (all : List Tx) : List Tx := if t ∈ all then all else t :: all
 
+/-- `delete(pool.all, hash)` -/
+def delAll (t : Tx) (all : List Tx) : List Tx := all.filter (fun x => !decide (x = t))
+
 /-- `delete(pool.pending, addr)` when the list became empty -/
 def dropIfEmpty (l : TxL) : TxL := if l.items.isEmpty then TxL.empty l.strict else l
 
@@ -210,7 +209,7 @@ def Pool.enqueueTx (s : Pool) (t : Tx) : Bool × Bool × Pool :=
   if !r.1 then (false, false, s)
   else
     let all := match r.2.1 with
-      | some o => s.all.erase o
+      | some o => delAll o s.all
       | none => s.all
     (r.2.1.isSome, true, { s with queue := upd s.queue t.sender r.2.2, all := insertAll t all,
                                   accts := if t.sender ∈ s.accts then s.accts else t.sender :: s.accts })
@@ -218,10 +217,10 @@ def Pool.enqueueTx (s : Pool) (t : Tx) : Bool × Bool × Pool :=
 /-- promoteTx -/
 def Pool.promoteTx (s : Pool) (a : Addr) (t : Tx) : Pool :=
   let r := (s.pending a).add t s.cfg.priceBump
-  if !r.1 then { s with all := s.all.erase t }
+  if !r.1 then { s with all := delAll t s.all }
   else
     let all := match r.2.1 with
-      | some o => s.all.erase o
+      | some o => delAll o s.all
       | none => s.all
     { s with pending := upd s.pending a r.2.2, all := insertAll t all, pnonce := upd s.pnonce a (t.nonce + 1),
              accts := if a ∈ s.accts then s.accts else a :: s.accts }
@@ -231,7 +230,7 @@ def Pool.promoteTx (s : Pool) (a : Addr) (t : Tx) : Pool :=
 def Pool.removeTxG (fixed : Bool) (s : Pool) (t : Tx) : Pool :=
   if t ∉ s.all then s
   else
-    let s := { s with all := s.all.erase t }
+    let s := { s with all := delAll t s.all }
     let a := t.sender
     let r := (s.pending a).remove t
     if r.1 then
@@ -319,7 +318,7 @@ def Pool.queueEvict (s : Pool) (order : List Addr) : Pool :=
   if s.queuedCount ≤ s.cfg.globalQueue then s
   else
     let nl := fun a => !s.isLocal a
-    s.queueDrop (s.queuedCount - s.cfg.globalQueue) (order.filter nl ++ s.accts.filter nl) s
+    Pool.queueDrop (s.queuedCount - s.cfg.globalQueue) (order.filter nl ++ s.accts.filter nl) s
 
 /-- promoteExecutables(accounts); `none` = all accounts -/
 def Pool.promoteExecutables (s : Pool) (accounts : Option (List Addr)) (slots qorder : List Addr) : Pool :=
@@ -373,9 +372,10 @@ def Pool.underpriced (s : Pool) (t : Tx) : Bool :=
     | none => false
     | some m => decide (t.price ≤ m)
 
-/-- add: (error, replaced?, pool) -/
+/-- add: (error, replaced?, pool). A malformed transaction has another hash than the well-formed one with the same five
+    fields, so only well-formed ones can be "known". -/
 def Pool.add (s : Pool) (t : Tx) (loc : Bool) (sh : Shape) (victims : List Tx) : Err × Bool × Pool :=
-  if t ∈ s.all then (.known, false, s)
+  if sh = .wellformed ∧ t ∈ s.all then (.known, false, s)
   else
     let e := s.validateTx t loc sh
     if e ≠ .ok then (e, false, s)
@@ -390,7 +390,7 @@ def Pool.add (s : Pool) (t : Tx) (loc : Bool) (sh : Shape) (victims : List Tx) :
           if !r.1 then (.replace, false, s)
           else
             let all := match r.2.1 with
-              | some o => s.all.erase o
+              | some o => delAll o s.all
               | none => s.all
             (.ok, r.2.1.isSome, { s with pending := upd s.pending t.sender r.2.2, all := insertAll t all })
         else
@@ -413,7 +413,7 @@ def Pool.addTx (s : Pool) (t : Tx) (loc : Bool) (sh : Shape) (victims : List Tx)
 def Pool.addMany (s : Pool) (loc : Bool) : List Tx → List (List Tx) → List Err × List Addr × Pool
   | [], _ => ([], [], s)
   | t :: ts, vs =>
-    let r := s.add t loc .wellformed vs.headD []
+    let r := s.add t loc .wellformed (vs.headD [])
     let rest := Pool.addMany r.2.2 loc ts vs.tail
     (r.1 :: rest.1, (if r.1 = .ok && !r.2.1 then [t.sender] else []) ++ rest.2.1, rest.2.2)
 
